@@ -353,6 +353,18 @@ func (m *Machine) reflectStub(name string, fn *ssa.Function, args []Val) (Val, b
 			}
 			return PtrInt{p}, true
 		}
+		if mo, ok := val.(*MapObj); ok {
+			if mo == nil {
+				return Const(64, 0), true
+			}
+			return PtrInt{Ptr{mo.hdr, 0}}, true
+		}
+		if s, ok := val.(Slice); ok {
+			if s.p.obj == nil {
+				return Const(64, 0), true
+			}
+			return PtrInt{s.p}, true
+		}
 		endPath("UNSUPPORTED", "reflect.Value.Pointer on %s", t)
 	case "(reflect.Value).Interface":
 		t, val := m.rvLoad(args[0])
